@@ -348,10 +348,10 @@ cfg["C35"] = {
 
 meta = {
     "C25": "meta.ETCD.BindStatus and helpers run against a model etcd (virtual clock, leases, server-like transactions) with the real clientv3 request builders; events, TTLs and elapsed times are symbolic; z3-decided paths prove the status is visible exactly while a reference model says it is alive, with the latest value, and that reports for a missing entity are refused.",
-    "C26": "meta.ETCD.StartEphemeral (with its keepalive goroutine under the cooperative scheduler) runs for two registrants against the model etcd over a symbolic event sequence with symbolic pauses; z3-decided paths prove exclusivity among registrants whose heartbeat ran, notification of lapses, and that the key always belongs to its creator's live lease.",
+    "C26": "meta.ETCD.StartEphemeral (with its keepalive goroutine under the cooperative scheduler) runs for two registrants against the model etcd over a symbolic event sequence with symbolic pauses; z3-decided paths prove exclusivity among registrants whose heartbeat ran, notification of lapses, and that the key always belongs to its creator's live lease. The active node-status watcher (selfmon.withActiveLock) runs as a registrant over a model store: when its registration lapses it stops and gives the registration back.",
     "C28": "selfmon's watcher (withActiveLock, monitor, initNodeStatus, dealNodeStatusMessage) runs under gosym's scheduler against a model cluster with a symbolic sequence of heartbeat lapses / arrivals / activation; Calcium.SetNode(WorkloadsDown) runs against the ledger world with a symbolic single fault; z3-decided paths prove that every lapsed node gets its workloads-down request and that the request reports every workload recorded on that node as neither running nor healthy.",
     "C27": "discovery/helium's loop, dispatch, Subscribe and Unsubscribe are executed under gosym's cooperative scheduler with exact Go channel semantics; the environment's events (registration change, tick, context end, unsubscribe) are a symbolic sequence and each subscriber is symbolically prompt or slow; z3-decided paths prove convergence of every live prompt subscriber and completion of Unsubscribe, outside one recorded finding (a slow subscriber blocks the dispatcher).",
-    "C22": "Two real cluster API calls (RemoveNode, CreateWorkload, SetNode, RemoveWorkload ...) run as two interpreted goroutines over one ledger world with blocking locks under gosym's cooperative scheduler; each external call is a scheduling point and the preemption decisions are symbolic Booleans, so the solver-driven exploration covers every interleaving at external-call granularity within the preemption budget; z3-decided paths prove referential consistency at quiescence, outside one recorded finding (remove-node racing with a deployment on that node).",
+    "C22": "Two real cluster API calls (RemoveNode, CreateWorkload, SetNode, RemoveWorkload ...) run as two interpreted goroutines over one ledger world with blocking locks under gosym's cooperative scheduler; each external call is a scheduling point and the preemption decisions are symbolic Booleans, so the solver-driven exploration covers every interleaving at external-call granularity within the preemption budget; z3-decided paths prove referential consistency at quiescence, outside one recorded finding (remove-node racing with a deployment on that node). Store half: the real Mercury.RemovePod over a model meta.KV (a pod with a node record in any state is never removed); plugin half: the real cpumem RemoveNode over an option-aware delete model with symbolically chosen node names (prefix relations).",
     "C13": "The real CreateWorkload pipeline runs against the ledger world whose store model keeps the in-progress marker with the BatchCreateAndDecr contract; an observer evaluates the reported deploy status at every intercepted call; z3-decided paths prove the status stays within [recorded workloads, prior + planned] during the deployment and equals the recorded workloads with no marker left after it returned, for every single-fault position.",
     "C35": "simple.BasicCredential.GetRequestMetadata, grpc metadata.NewIncomingContext/FromIncomingContext and BasicAuth.{UnaryInterceptor,StreamInterceptor,doAuth} are executed on usernames/passwords made of symbolic bytes with a stub for the HTTP/2 transport; z3 proves per path that both calls are served iff the usernames are the same metadata key and the passwords are equal; natively replayed paths repeat both calls over a real in-process gRPC connection.",
     "C01": "Every feasible path of strategy.Deploy and the five real strategy functions (real container/heap and sort SSA) is executed with capacities, counts, need, limit, usage and rate symbolic; on each path z3 proves the plan assertions (only candidates, 0<=d<=capacity, exact totals, EACH/FILL selection sizes, AUTO node limit) for all values inside the bounds, or returns a model that is replayed natively. Bounded by node count and, for AUTO/GLOBAL, by need.",
@@ -377,9 +377,14 @@ meta = {
     "C31": "docker.makeResourceSetting and (*Engine).VirtualizationUpdateResource are executed with symbolic CPU (1/4096 grid), memory, cpu map and NUMA node; z3 proves cpuset = exactly the allocated cores, cpuset-mems = NUMA node, quota -1 when bound, shares = round(1024*frac), quota = cpu*period when unbound, memory caps.",
     "C17": "utils.Txn and utils.PCR are executed for every outcome vector and caller-cancellation point (symbolic Booleans / choices, complete finite space); z3 decides each branch; assertions: then iff cond ok, rollback exactly once iff a step failed with the right flag, first failure returned, rollback context not cancelled by the caller.",
     "C20": "The lock wrappers (withNodesPodLocked, withNodeOperationLocked, withWorkloadsLocked) and the sequential ReallocResource are executed over symbolic include/id lists and pod assignments with recording locks; the acquisition trace must be strictly ascending within pod locks and within workload locks, pod before workload, and everything released.",
-    "C21": "Calcium.filterNodes (with the real utils.Map/sort code) is executed over symbolic include/exclude lists and store orders; the result must contain exactly the wanted distinct nodes, each once.",
+    "C21": "Calcium.filterNodes (with the real utils.Map/sort code) is executed over symbolic include/exclude lists and store orders; the result must contain exactly the wanted distinct nodes, each once. Store half (etcd backend): the real Mercury.GetNodesByPod/doGetNodes runs over a model meta.KV with symbolic labels, test/bypass flags, status keys and filter; z3 proves per path that exactly the labelled nodes that are up and not bypassed (all labelled nodes when all is requested) are returned, each once.",
     "C33": "CalculateRealloc with keep-bind and zero CPU delta is executed for every valid origin cpu map on whole-share cores; z3 proves the new cpu map and NUMA node equal the origin's, outside two recorded findings (fractional core moves; NUMA node changes).",
 }
+# extensions added after the generator was written (round 15: store halves of C21/C22, watcher half of C26)
+for _pid, _e in json.load(open(f'{V}/tools/checks_ext.json')).items():
+    cfg[_pid]['runs'] += _e['runs_extra']
+    cfg[_pid]['bounds'] = _e['bounds']
+    cfg[_pid]['outside'] = _e['outside']
 json.dump(cfg, open(f'{V}/checks.json', 'w'), indent=1)
 mm = json.load(open(f'{V}/tools/manifest_meta.json'))
 for k, t in meta.items():
